@@ -99,6 +99,8 @@ def formatDebug (lib : Lib) (a : Args) (content : String) : FormatResult :=
 
 def infoEv (a : Args) (s : String) : List Ev := if a.quiet then [] else [.info s]
 def debugEv (a : Args) (s : String) : List Ev := if a.verbose then [.info s] else []
+/-- `warn!`: suppressed by `--quiet` (level filter `Error`). -/
+def warnEv (a : Args) : List Ev := if a.quiet then [] else [.warn]
 
 structure St where
   world : Entry
@@ -127,7 +129,7 @@ def formatOne (lib : Lib) (a : Args) (input : Option Path) (stdin : String) (st 
       if !a.inplace && !a.check then ({ st with evs := st.evs ++ [.out r] }, some false) else (st, some false)
     | .erroneous c =>
       let evs := if !a.inplace && !a.check then [Ev.out c] else []
-      ({ st with evs := st.evs ++ evs ++ [.warn] }, some false)
+      ({ st with evs := st.evs ++ evs ++ warnEv a }, some false)
 
 /-! ### `format_many` -/
 structure ManySt where
@@ -160,7 +162,7 @@ def allFile (lib : Lib) (a : Args) (acc : AllSt) (p : Path) (c : Content) : AllS
   | .binary => { acc with st := { acc.st with evs := acc.st.evs ++ [.error] }, errors := acc.errors + 1 }
   | .text content =>
     match lib a.style content with
-    | none => { acc with st := { acc.st with evs := acc.st.evs ++ [.warn] } }
+    | none => { acc with st := { acc.st with evs := acc.st.evs ++ warnEv a } }
     | some res =>
       if res == content then { acc with unchanged := acc.unchanged + 1 }
       else if a.check then
